@@ -165,7 +165,7 @@ def outcomeStr : Node.Outcome → String
 def decideLine (ctx : Bool) (local_ inject : String) : String :=
   let ks := errKinds local_ inject
   if ks.isEmpty then (if ctx then "decide ctx-err" else "decide blocked") else
-  let outs := (ks.map fun k => outcomeStr (Node.acceptOutcome ctx (local_ != "none") k)).eraseDups
+  let outs := (ks.map fun k => outcomeStr (Node.acceptOutcome ctx (local_ != "none") false k)).eraseDups
   match outs with
   | [o] => "decide " ++ o
   | os => "decide {" ++ joinWith "|" os ++ "}"
@@ -213,10 +213,16 @@ def step (s : St) : List String → St × String
     | none => (s, "bad-op")
   | ["decide", c, l, i] =>
     if validLocal l && validInject i then (s, decideLine (c = "1") l i) else (s, "bad-op")
-  | ["close-during-reconnect"] =>
-    -- local `Close` ⇒ `ErrClosed` is what the property asks for (the real client loses the
-    -- Close when it races a reconnect: observation, `replays/C18-close-during-reconnect.ops`)
-    (s, "decide closed")
+  | ["close-during-reconnect", l, w] =>
+    if (l = "close" || l = "shutdown") && (w = "during" || w = "after") then
+      -- the server dropped the connection (no local close yet, live context): reconnect;
+      -- `during`: the local close lands while `connect` runs → the re-check; `after`: the
+      -- reconnect completed, then a local close on the new session (go-away / session close)
+      let out := if w = "during" then Node.acceptOutcome false false true .netClosed
+        else Node.acceptOutcome false true false (if l = "close" then .netClosed else .sessionShutdown)
+      (s, "decide " ++ outcomeStr out ++ " reg=" ++
+        boolStr (Node.registeredAfterLocalClose (l = "shutdown") (w = "during")))
+    else (s, "bad-op")
   | ["proc", _] => (s, "proc before=1 recovered=1")
   | ws =>
     if !s.started then (s, "bad-op") else
